@@ -118,7 +118,7 @@ MODEL_QUICK = {"task-chain", "par-task-end", "map-task-mc1", "nested", "par-fail
                "par-tt", "map-3-mc2", "nest-par-map", "express-par", "two-execs"}
 
 
-def model_stage(scns, thorough, on_run, work):
+def model_stage(scns, thorough, on_run, work, prop=""):
     """Engine.tla on every scenario the model supports: (1) TLC checks the invariants on ALL schedules
     (as this code: Dev = {F18, F19}; and as the design: Dev = {}); a counterexample is replayed on the
     real engine; (2) the crash-free state graph is dumped, covered by paths, and every path is driven
@@ -132,9 +132,10 @@ def model_stage(scns, thorough, on_run, work):
             code = model.check(s, wd, name=s["id"] + "_code")
         except model.Unsupported as ex:
             return s, None, str(ex)
-        design = model.check(s, wd, dev=(), name=s["id"] + "_design") if thorough else None
+        # (each of the extra modes is run by ONE property's thorough tier: the design by C06, liveness by C02)
+        design = model.check(s, wd, dev=(), name=s["id"] + "_design") if thorough and prop in ("C06", "") else None
         # C02 in the model: under weak fairness every execution ends and stays ended, on every schedule
-        live = model.check(s, wd, name=s["id"] + "_live", liveness=True) if thorough else None
+        live = model.check(s, wd, name=s["id"] + "_live", liveness=True) if thorough and prop in ("C02", "") else None
         dot = os.path.join(wd, "g_" + "".join(c if c.isalnum() else "_" for c in s["id"]))
         graph = model.check(s, wd, dump=dot, name=s["id"] + "_code")
         return s, (code, design, graph, dot + ".dot", live), None
@@ -152,8 +153,8 @@ def model_stage(scns, thorough, on_run, work):
         out["states"] += code["states"] + (design["states"] if design else 0)
         out["transitions"] += code["generated"] + (design["generated"] if design else 0)
         info = {"states": graph["states"], "code": "holds" if code["ok"] else code["violated"],
-                "design": "not run at quick" if design is None else ("holds" if design["ok"] else design["violated"]),
-                "liveness_EventuallyDone": "not run at quick" if live is None else ("holds" if live["ok"] else live["violated"])}
+                "design": "not run in this tier of this property" if design is None else ("holds" if design["ok"] else design["violated"]),
+                "liveness_EventuallyDone": "not run in this tier of this property" if live is None else ("holds" if live["ok"] else live["violated"])}
         if live is not None and not live["ok"] and live["violated"]:
             out["leads"].append({"scenario": s["id"], "invariant": live["violated"] + " (temporal)", "followed": None})
         if not code["ok"] and code["violated"]:
@@ -296,7 +297,7 @@ def run(prop, tier_name=None, replay=None):
                 explore_random(s, 4, sd + 17, on_run=lambda r, s=s: on_run(r, s))
     t_explore = time.time() - v.t0
     try:
-        mstats = model_stage(scns, thorough, on_run, work)
+        mstats = model_stage(scns, thorough, on_run, work, prop)
         t_model = time.time() - v.t0 - t_explore
     except tlc.TLCError as ex:
         v.machinery_failure(str(ex)[:1500])
